@@ -126,8 +126,8 @@ def run(R):
     M = models_of(P)
     # ------------------------------------------------------------------ TBL.1 / TBL.2
     R.ob('C08.TBL.1', 'get_tl_num_size, write_tl_num, parse_tl_num and read_tl_num_from_stream implement the VAR-NUMBER table (shortest form)')
-    tabs = varnum_tables(P)
-    for (what, a, b, okay, detail) in compare_varnum(tabs):
+    tabs = varnum_tables(P, ('get_tl_num_size', 'write_tl_num', 'parse_tl_num'))
+    for (what, a, b, okay, detail) in compare_varnum(tabs, only=('get_tl_num_size', 'write_tl_num', 'parse_tl_num')):
         inst = f'{a} :: {what}'
         if okay:
             R.ok('C08.TBL.1', inst, tabs[a]['site'], detail)
